@@ -92,3 +92,45 @@ def reaching_defs(g: CFG, name: str, use: Node) -> List[Node]:
         if g.path_avoiding(d, use, avoid=others) is not None and d is not use:
             out.append(d)
     return out
+
+
+def owner_or_helper(cg, f, owners, depth=0) -> bool:
+    """f is one of the owner functions, is nested in one, or is a private helper that is only ever called from owner functions
+    (transitively) - an extracted piece of an owner is part of it."""
+    root_fn = f.qualname.split('.<locals>')[0].split('@')[0]
+    if root_fn in owners:
+        return True
+    if depth > 3 or not f.name.startswith('_') or f.name.startswith('__'):
+        return False
+    callers = {e.caller for e in cg.inn.get(f, []) if e.caller is not f}
+    if not callers:
+        return False
+    return all(owner_or_helper(cg, c, owners, depth + 1) for c in callers)
+
+
+def may_call(cg, f, target_qual, assume, depth=0, _seen=None) -> bool:
+    """Can an execution of f under the branch assumptions reach a call of target (following calls into helpers of the same class)?"""
+    from ..cfg import cfg_of
+    from ..astutil import walk_local
+    import ast as _ast
+    _seen = _seen or set()
+    if f in _seen or depth > 3:
+        return False
+    _seen.add(f)
+    g = cfg_of(f.node)
+    ok = g.edge_filter_assuming(assume) if assume else None
+    reach = g.reachable(g.entry, edge_ok=ok)
+    for n in reach:
+        for e in n.exprs():
+            for c in walk_local(e):
+                for ed in cg.by_node.get(c, []):
+                    if ed.caller.node is not f.node:
+                        continue
+                    q = ed.callee.qualname.split('@')[0]
+                    if q == target_qual:
+                        return True
+                    if ed.callee.cls is not None and f.cls is not None and ed.callee.cls.name == f.cls.name and ed.callee.name.startswith('_') \
+                            and isinstance(c, _ast.Call) and isinstance(c.func, _ast.Attribute) and unparse(c.func.value) == 'self':
+                        if may_call(cg, ed.callee, target_qual, assume, depth + 1, _seen):
+                            return True
+    return False
